@@ -603,6 +603,67 @@ Proof.
   - vm_compute. eauto.
 Qed.
 
+(** *** after the repair of C12-F1 (model variant [fixed = true]) the statement
+    holds without guard: every answer to a failure handled by a www_authenticate
+    handler carries the challenge naming the configured (or default) realm, on
+    all three entry points; redirects keep their Location; nothing else changes *)
+Lemma challenge_of_www realm cause :
+  challenge_of (ScHandled (MWWW realm) cause) = Some ("Basic realm=" ++ effective_realm realm)%string.
+Proof. reflexivity. Qed.
+
+Lemma challenge_of_other sc :
+  match sc with ScHandled (MWWW _) _ => False | _ => True end -> challenge_of sc = None.
+Proof.
+  destruct sc as [e|m cause|v]; simpl; auto. destruct m as [|code [url|]|realm]; simpl; auto. contradiction.
+Qed.
+
+Theorem www_authenticate_has_header_fixed c o realm cause :
+  (forall s h b, http_respond_f true c o (ScHandled (MWWW realm) cause) = HFinal s h b ->
+     h_www h = Some ("Basic realm=" ++ effective_realm realm)%string) /\
+  (forall d, grpc_respond_f true c o (ScHandled (MWWW realm) cause) = GDenied d ->
+     h_www (g_hdrs d) = Some ("Basic realm=" ++ effective_realm realm)%string) /\
+  (exists d, grpc_respond_f true c o (ScHandled (MWWW realm) cause) = GDenied d /\
+             g_code d = GUnauthenticated /\ g_status d = grpc_code (ov_authn c) 401) /\
+  (valid_code (http_code (ov_authn c) 401) = true ->
+     exists h b, http_respond_f true c o (ScHandled (MWWW realm) cause) = HFinal (http_code (ov_authn c) 401) h b).
+Proof.
+  unfold http_respond_f, grpc_respond_f. rewrite challenge_of_www.
+  destruct (www_authenticate_status c o realm cause) as [HS (d & GD & G1 & G2)].
+  split; [|split; [|split]].
+  - intros s h b. destruct (http_respond c o (ScHandled (MWWW realm) cause)); try discriminate.
+    intro E; inversion E; subst. reflexivity.
+  - intros d'. rewrite GD. intro E; inversion E; subst. reflexivity.
+  - rewrite GD. eexists; split; [reflexivity|]. simpl. auto.
+  - intro V. destruct (HS V) as (h & b & E). rewrite E. eauto.
+Qed.
+
+(** the repair changes nothing but that header *)
+Theorem fixed_only_adds_challenge c o sc :
+  (match http_respond c o sc, http_respond_f true c o sc with
+   | HFinal s h b, HFinal s' h' b' =>
+       s = s' /\ b = b' /\ h_location h = h_location h' /\ h_ctype h = h_ctype h' /\
+       (h_www h' = h_www h \/ h_www h' = challenge_of sc)
+   | HAbort, HAbort | HPositive, HPositive => True
+   | _, _ => False
+   end) /\
+  (match sc with ScHandled (MWWW _) _ => True | _ => http_respond_f true c o sc = http_respond c o sc /\
+                                                      grpc_respond_f true c o sc = grpc_respond c o sc end) /\
+  http_respond_f false c o sc = http_respond c o sc /\ grpc_respond_f false c o sc = grpc_respond c o sc.
+Proof.
+  split; [|split; [|split]].
+  - unfold http_respond_f. destruct (http_respond c o sc); auto.
+    destruct (challenge_of sc); simpl; auto 10.
+  - assert (N : match sc with ScHandled (MWWW _) _ => False | _ => True end -> 
+                http_respond_f true c o sc = http_respond c o sc /\ grpc_respond_f true c o sc = grpc_respond c o sc).
+    { intro H. unfold http_respond_f, grpc_respond_f. rewrite (challenge_of_other sc H). simpl.
+      split; [destruct (http_respond c o sc); reflexivity|].
+      destruct (grpc_respond c o sc) as [[gc gs gh gb]| |]; reflexivity. }
+    destruct sc as [e|m cause|v]; try (apply N; exact I).
+    destruct m; try (apply N; exact I). exact I.
+  - unfold http_respond_f. destruct (http_respond c o sc); reflexivity.
+  - unfold grpc_respond_f. destruct (grpc_respond c o sc); reflexivity.
+Qed.
+
 (** ** a panic is answered by the internal-error class (HTTP) / a gRPC Internal status *)
 Theorem panic_response c o :
   (valid_code (http_code (ov_internal c) 500) = true ->
